@@ -83,4 +83,17 @@ def loop {σ ρ : Type} (fuel : Nat) (onFuel : ρ) (step : σ → LoopStep σ ρ
     | .brk s' => .inr s'
     | .ret r => .inl r
 
+/-! ## Entry points of the generated module
+
+A tree with a type switch over the type parameter (`switch any(x).(type) { case uint64: … }`) is translated with a module
+variable `named_` ("the type argument is a defined type such as `type Amount uint64`, which no case over the predeclared types
+matches"); the generic functions concerned then take it as their first argument.  The driver and the model search call the
+generic functions through this adapter, which accepts both shapes. -/
+
+class Entry2 (α : Type) where
+  run : α → Bool → IntTy → Int → Int → Res Int
+
+instance : Entry2 (IntTy → Int → Int → Res Int) := ⟨fun f _ => f⟩
+instance : Entry2 (Bool → IntTy → Int → Int → Res Int) := ⟨fun f => f⟩
+
 end Hive.GoInt
